@@ -47,6 +47,37 @@ theorem trans_C01_C02_C05_C08_C10_cycleBody_is_stepOp (c : Cfg) (a : Acc) (avail
       by_cases hc : c.allow ≤ a.consumed <;> by_cases hm : 0 < c.mb op.w <;> by_cases hf : c.mb op.w ≤ b.length + 1 <;>
       simp [stepOp, place, cutoff, isFull, cycleBody, cyIn, hge, hl, hb, hav, hlim, hc, hm, hf, hu, eC, eM, eF]
 
+/-- v1: the same for the loop `Fill:` of /repo/batcher.go - the cut-off is `consumed > capacity` (the model's `ge = false`),
+there are no slots (`avail = true`; the model's slot flag has no meaning in v1), and the operation has already left
+the channel when the body runs (buffer call 2 on every path that is not the cut-off) -/
+theorem trans_C01_C02_C05_C08_cycleBody_is_stepOp_v1 (c : Cfg) (a : Acc) (op : Op)
+    (hge : c.ge = false) (hw : a.consumed + op.cost < 4294967296) :
+    match stepOp c a true op with
+    | .stop => (cycleBodyV1 (cyIn c a true op)).action = 1 ∧ (cycleBodyV1 (cyIn c a true op)).bufCall = 0
+    | .skip => False
+    | .take a' out _ =>
+      (cycleBodyV1 (cyIn c a true op)).bufCall = 2 ∧ (cycleBodyV1 (cyIn c a true op)).action = 0 ∧
+      (cycleBodyV1 (cyIn c a true op)).consumed = a'.consumed ∧
+      (cycleBodyV1 (cyIn c a true op)).raisedLen = ((out.map (·.2.length)).getD 0 : Nat) ∧
+      (cycleBodyV1 (cyIn c a true op)).stored = op.batchable ∧
+      (op.batchable = true → (cycleBodyV1 (cyIn c a true op)).storeLen =
+        (match out with | some _ => 0 | none => (((lookupB op.w a.openB).getD []).length + 1 : Nat))) := by
+  have hu : u32 ((a.consumed : Int) + (op.cost : Int)) = (a.consumed : Int) + (op.cost : Int) := by
+    simp only [u32]; omega
+  have eC : ((c.allow : Int) < (a.consumed : Int)) ↔ c.allow < a.consumed := by omega
+  have eM : ((0 : Int) < (c.mb op.w : Int)) ↔ 0 < c.mb op.w := by omega
+  cases hl : lookupB op.w a.openB with
+  | none =>
+    have eF : ((c.mb op.w : Int) ≤ 1) ↔ c.mb op.w ≤ 1 := by omega
+    cases hb : op.batchable <;> cases hlim : c.limited <;>
+      by_cases hc : c.allow < a.consumed <;> by_cases hm : 0 < c.mb op.w <;> by_cases hf : c.mb op.w ≤ 1 <;>
+      simp [stepOp, place, cutoff, isFull, cycleBodyV1, cyIn, hge, hl, hb, hlim, hc, hm, hf, hu, eC, eM, eF]
+  | some b =>
+    have eF : ((c.mb op.w : Int) ≤ (b.length : Int) + 1) ↔ c.mb op.w ≤ b.length + 1 := by omega
+    cases hb : op.batchable <;> cases hlim : c.limited <;>
+      by_cases hc : c.allow < a.consumed <;> by_cases hm : 0 < c.mb op.w <;> by_cases hf : c.mb op.w ≤ b.length + 1 <;>
+      simp [stepOp, place, cutoff, isFull, cycleBodyV1, cyIn, hge, hl, hb, hlim, hc, hm, hf, hu, eC, eM, eF]
+
 /-- non-vacuity: a batchable operation that fills its watcher's batch of 2 -/
 example :
     let op : Op := { id := 1, obj := 1, w := 0, cost := 3, batchable := true }
